@@ -5,6 +5,7 @@ import (
 	"math"
 
 	"github.com/tobgu/qframe"
+	"github.com/tobgu/qframe/types"
 
 	"verif/harness/core"
 	"verif/harness/model"
@@ -16,6 +17,9 @@ type filterCase struct {
 	FrameID int          `json:"frame_id"`
 	Shape   int          `json:"shape"`
 	Clause  model.Clause `json:"clause"`
+	// Battery: 1 = the returned frame also goes through the latent-state battery (battery.go); 2 = after the filter the
+	// RECEIVER and frames derived from it go through it (deep); 3 = the same on the battery frame (FrameID ignored)
+	Battery int `json:"battery,omitempty"`
 }
 
 var c02EnumVals = []string{"z", "x", "y"} // declared order differs from the alphabet
@@ -551,14 +555,35 @@ func runFilterCase(c filterCase) *core.Failure {
 	}
 	qf := env.real[c.FrameID][c.Shape]
 	in := env.obs[c.FrameID][c.Shape]
+	if c.Battery == 3 {
+		bf, decl := batteryFrame()
+		q := model.BuildShape(bf, c.Shape)
+		// an int column against a float column, on the frame and on a derived frame, before anything else
+		cl := qframe.Or(qframe.Filter{Column: "n", Comparator: ">", Arg: types.ColumnName("a")}, qframe.Filter{Column: "a", Comparator: ">=", Arg: types.ColumnName("n")})
+		if r := q.Filter(cl); r.Err != nil {
+			return core.Failf("filter on the battery frame failed: %v", r.Err)
+		}
+		_ = q.Sort(qframe.Order{Column: "n"}).Filter(cl)
+		return latentDeep(q, decl, "the battery frame ("+model.ShapeNames[c.Shape]+") after column-to-column filters")
+	}
 	if in.Err {
 		return core.Failf("input frame could not be built: %s", in.ErrText)
 	}
 	clause := model.BuildClause(c.Clause, in.Kinds())
-	out := model.Observe(qf.Filter(clause))
+	res := qf.Filter(clause)
+	out := model.Observe(res)
 	d := compareFilter(in, out, c.Clause, model.Defects{})
 	if d == "" {
-		// independence of derivation: same result on a frame rebuilt by New
+		switch c.Battery {
+		case 1:
+			what := fmt.Sprintf("Filter(%s) on frame %d shape %s", c.Clause, c.FrameID, model.ShapeNames[c.Shape])
+			if f := latentBattery(res, declOf(in), what); f != nil {
+				return f
+			}
+			return bookkeepingBattery(res, what)
+		case 2:
+			return latentDeep(qf, declOf(in), fmt.Sprintf("frame %d shape %s after Filter(%s)", c.FrameID, model.ShapeNames[c.Shape], c.Clause))
+		}
 		return nil
 	}
 	fail := core.Failf("Filter(%s) on frame %d shape %s: %s\n input: %s\n   got: %s", c.Clause, c.FrameID, model.ShapeNames[c.Shape], d, in, out)
@@ -606,6 +631,27 @@ func c02Run(ctx *core.Ctx) {
 					exec(filterCase{FrameID: fi, Shape: s, Clause: v})
 				}
 			}
+		}
+	}
+	// latent state: the result of every leaf on the small frames (battery), and the receivers themselves after a
+	// column-to-column filter (deep battery); the same on the battery frame
+	for fi := 0; fi < 5 && fi < len(env.frames)-1; fi++ {
+		for li, l := range leaves {
+			if ctx.Mine() {
+				exec(filterCase{FrameID: fi, Shape: (li + fi) % model.NShapes, Clause: model.LeafC(l), Battery: 1})
+			}
+		}
+		for s := 0; s < model.NShapes; s++ {
+			for _, l := range leaves {
+				if l.Col == "i" && l.Cmp == ">" && l.ArgCol == "f2" && !l.Inverse && ctx.Mine() {
+					exec(filterCase{FrameID: fi, Shape: s, Clause: model.LeafC(l), Battery: 2})
+				}
+			}
+		}
+	}
+	for s := 0; s < model.NShapes; s++ {
+		if ctx.Mine() {
+			exec(filterCase{FrameID: 0, Shape: s, Clause: model.NullClause(), Battery: 3})
 		}
 	}
 	// big-enum layer: ordering and equality against constants at ranks around 127/128 and against the other column
